@@ -66,24 +66,24 @@ def rdecls(uni, ref, on_reset):
     return "[" + "; ".join(out) + "]"
 
 
-CORO_TMPL = """{header}From Cohdl Require Import Equiv.VhdlTS Models.Coro Models.CoroReset.
+CORO_TMPL = """{header}From Cohdl Require Import Equiv.VhdlTS Vhdl.DeadVars Equiv.StoreTS Models.Coro Models.CoroReset.
 Definition d : design := {design}.
 Definition p : stmt := {prog}.
 Definition alphabet : list (list value) := product [{cands}].
 Definition assume (_ : rstate) (_ : list value) := true.
-Definition inits := [(power_up d, rinit)].
 Definition stepB := ref_step_rst {is_async} {low} p.
 Theorem case_ok : forall ins, admissible stepB alphabet assume rinit ins ->
-  traceA (vstep d true) (power_up d) ins = traceB stepB rinit ins.
+  traceA (sstep d true) (power_up_s d) ins = traceB stepB rinit ins.
 Proof.
-  apply (vcheck_sound d true stepB rstate_eqb rstate_eqb_ok rhash alphabet assume 400000 inits);
-    [vm_cast_no_check (eq_refl true) | left; reflexivity].
+  apply (vcheck_s_sound d true stepB rstate_eqb rstate_eqb_ok rhash alphabet assume 400000 rinit);
+    vm_cast_no_check (eq_refl true).
 Qed.
 """
-CORO_DIAG = """Definition verdict := Eval vm_compute in (vcheck_bfs d true stepB rstate_eqb rhash alphabet assume 400000 inits).
+CORO_DIAG = """Eval vm_compute in (conc_all_ok (auto_Ts d) d).
+Definition verdict := Eval vm_compute in (vcheck_s_bfs d true stepB rstate_eqb rhash alphabet assume 400000 rinit).
 Eval vm_compute in verdict.
 Eval vm_compute in (match verdict with
-  | VCex path => Some (traceA (vstep d true) (power_up d) path, traceB stepB rinit path)
+  | VCex path => Some (traceA (sstep d true) (power_up_s d) path, traceB stepB rinit path)
   | _ => None end).
 """
 
